@@ -126,6 +126,7 @@ type walkCase struct {
 	Dir  string   `json:"dir"`  // the dir of //dir/... ("" = //...)
 	Bl   []string `json:"bl"`
 	Ex   []string `json:"ex"`
+	Bd   []string `json:"bd"` // directories (without a BUILD file) holding a sub-directory named BUILD
 }
 
 func pkgwalkEngine(args []string) error {
@@ -143,7 +144,7 @@ func pkgwalkEngine(args []string) error {
 		if err := json.Unmarshal(raw, &c); err != nil {
 			return err
 		}
-		key := strings.Join(c.Pkgs, "\x01")
+		key := strings.Join(c.Pkgs, "\x01") + "\x02" + strings.Join(c.Bd, "\x01")
 		dir, ok := trees[key]
 		if !ok {
 			dir = filepath.Join(base, fmt.Sprintf("t%d", len(trees)))
@@ -152,6 +153,11 @@ func pkgwalkEngine(args []string) error {
 			}
 			for _, p := range c.Pkgs {
 				if err := touch(filepath.Join(dir, p, "BUILD")); err != nil {
+					return err
+				}
+			}
+			for _, p := range c.Bd {
+				if err := touch(filepath.Join(dir, p, "BUILD", "notes.txt")); err != nil {
 					return err
 				}
 			}
